@@ -244,7 +244,15 @@ pub fn template<S: Src, const T: usize>(s: &mut S) -> Verdict {
             let name = [b'a', x, b'.', b'c', b'd'];
             (ok, wire_of(&name, 1, 7, &[1, 2, 3, 4]))
         }
-        // SOA: whitespace between '(' and the first counter may be any ASCII whitespace
+        // TXT decimal escape \\X55: first digit (values up to 255 only)
+        11 => {
+            text.extend_from_slice(b"ab.cd 7 IN TXT \"\\");
+            text.push(x);
+            text.extend_from_slice(b"55\"");
+            let d = x.wrapping_sub(b'0');
+            (x >= b'0' && x <= b'2', wire_of(b"ab.cd", 16, 7, &[1, d.wrapping_mul(100).wrapping_add(55)]))
+        }
+        // SOA: the last counter digit
         _ => {
             text.extend_from_slice(b"ab.cd 7 IN SOA n.s h.m (1 2 3 4 ");
             text.push(x);
